@@ -48,6 +48,11 @@ def run(ctx: RuleContext):
     ctx.sub(check_caches, ctx, r, cg, "C12.5")
     ctx.reuse("C12.6", check_failed_checks_leave_nothing, ctx, r)
     ctx.reuse("C12.7", check_unpickling_is_history_free, ctx)
+    # C12.8: "verdicts never depend on ... which hooks are installed": a hook instruments exactly the packages named (C11.2's predicate): a
+    # bare prefix test instruments `foobar` for `foo`, whose checks then run inside contexts nobody asked for
+    from .c11 import check_predicate
+
+    ctx.reuse("C12.8", check_predicate, ctx)
 
 
 def check_unpickling_is_history_free(ctx):
